@@ -103,6 +103,15 @@ p_dir_new (const pchar	*path,
 	ret->path      = p_strdup (path);
 	ret->orig_path = p_strdup (path);
 
+	if (P_UNLIKELY (ret->path == NULL || ret->orig_path == NULL)) {
+		p_error_set_error_p (error,
+				     (pint) P_ERROR_IO_NO_RESOURCES,
+				     0,
+				     "Failed to allocate memory for directory path");
+		p_dir_free (ret);
+		return NULL;
+	}
+
 	pathp = ret->path + strlen (ret->path) - 1;
 
 	if (*pathp == '/' || *pathp == '\\')
@@ -316,6 +325,15 @@ p_dir_get_next_entry (PDir	*dir,
 	ret->name = p_strdup (dirent_st.d_name);
 #  endif
 #endif
+
+	if (P_UNLIKELY (ret->name == NULL)) {
+		p_error_set_error_p (error,
+				     (pint) P_ERROR_IO_NO_RESOURCES,
+				     0,
+				     "Failed to allocate memory for directory entry name");
+		p_free (ret);
+		return NULL;
+	}
 
 	path_len = strlen (dir->path);
 
